@@ -836,14 +836,14 @@ def plan(tier):
                 "small3": dict(max_nodes=3, max_depth=3, scalars=gen.SCALARS_SMALL),
                 "full3": dict(max_nodes=3, max_depth=3, scalars=gen.SCALARS_FULL)}
         bounds = {"docs": "all trees N<=5 depth<=3 scalars {null,true,1,a}; all trees N<=3 over the 9-value scalar pool; "
-                          "11 anchor/alias/merge documents; 40000 seeded random trees N<=14",
+                          "11 anchor/alias/merge documents; 20000 seeded random trees N<=14",
                   "paths": "every 1-segment path on every document; every 2-segment path (186^2) on all N<=3 documents; "
-                           "400 seeded 2-segment and 150 seeded 3-segment paths per N<=4 document; anchor paths; "
+                           "250 seeded 2-segment and 100 seeded 3-segment paths per N<=4 document; anchor paths; "
                            "one random 3-5 segment path per random tree",
                   "notations": "dot and forward-slash", "exhaustive": "documents(N<=5) x 1-segment; documents(N<=3) x 2-segment"}
         spec = [("small5", "one", {}, 40), ("full3", "one", {}, 12), ("small3", "two-all", {}, 1),
-                ("small4", "sample", {"len": 2, "k": 400}, 8), ("small4", "sample", {"len": 3, "k": 150}, 16)]
-        nrandom = 40000
+                ("small4", "sample", {"len": 2, "k": 250}, 8), ("small4", "sample", {"len": 3, "k": 100}, 16)]
+        nrandom = 20000
     elif tier == "mini":
         # smoke / mutation-testing tier (not a reporting tier): ~110k cases
         sets = {"small3": dict(max_nodes=3, max_depth=3, scalars=gen.SCALARS_SMALL)}
